@@ -18,10 +18,14 @@ package main
 //	       kr:<coin>                 collateral return (Babbage+)
 //	       kt:<n>                    total collateral (Babbage+)
 //	       c:sreg | c:sdereg | c:sdeleg | c:pret
-//	       c:preg:<n|o>:<id>         pool registration, n = pool id not registered in the state, o = registered
+//	       c:preg:<n|o|r>:<id>       pool registration: n = pool not registered in the state, o = registered,
+//	                                 r = registered with a pending retirement (still holds its deposit)
 //	       c:reg:<amt> | c:unreg:<amt>:<recorded> | c:srd:<amt> | c:vrd:<amt> | c:svrd:<amt>
 //	       c:dreg:<amt> | c:dunreg:<amt>:<recorded> | c:vdeleg      (Conway+)
-//	out: decode-err | vc=<ok|vnc|baddep> bad=<0|1> dep=<0|1>
+//	out: decode-err | pure=<1|0> vc=<ok|vnc|baddep> bad=<0|1> dep=<0|1>
+//	     pure = 1 iff validating the same decoded transaction a second time gives the same
+//	            verdicts and the transaction's and the state's reported values (outputs,
+//	            Produced(), stored bytes, mint, UTxOs) are unchanged by validation
 //	     vc  = verdict of the value-conservation errors over the era's whole rule list
 //	     bad = 1 iff some rule returned BadInputsUtxoError
 //	     dep = 1 iff some rule returned IncorrectCertificateDepositError
@@ -200,8 +204,15 @@ func genC27(r *Rand, n int, tier string, emit func(string)) {
 				items = append(items, "c:"+k)
 			case "preg":
 				id := r.Intn(3)
-				isNew := r.Bool()
+				isNew := r.Chance(2, 5)
 				st := "o"
+				if !isNew && r.Chance(1, 2) {
+					st = "r" // registered, retirement pending: a re-registration, no deposit
+					id += 3
+					if r.Chance(1, 3) {
+						add(&producedC, pd) // as a rule that mistook it for a new pool would balance
+					}
+				}
 				if isNew {
 					st = "n"
 					id += 10 // ids >= 10 are never registered in the state
@@ -432,6 +443,7 @@ func runC27(op string) string {
 	pools := []common.PoolRegistrationCertificate{}
 	dreps := []common.DRepRegistration{}
 	seenPool := map[int]bool{}
+	retiring := map[common.PoolKeyHash]bool{}
 	a, _ := common.NewAddressFromBytes(g1Addr(7))
 	nIn, nW := 0, 0
 	mkUtxo := func(n int, coin uint64, b []c27Entry) {
@@ -548,9 +560,14 @@ func runC27(op string) string {
 				}
 				id := int(num(3))
 				certs = append(certs, c27PoolReg(id))
-				if p[2] == "o" && !seenPool[id] {
+				if (p[2] == "o" || p[2] == "r") && !seenPool[id] {
 					seenPool[id] = true
 					pools = append(pools, common.PoolRegistrationCertificate{Operator: common.NewBlake2b224(c27Hash28(0xb0, id))})
+					if p[2] == "r" {
+						retiring[common.NewBlake2b224(c27Hash28(0xb0, id))] = true
+					}
+				} else if p[2] != "n" && p[2] != "o" && p[2] != "r" {
+					return "bad-op"
 				}
 			case "reg":
 				certs = append(certs, cbArray(cbUint(7), cred, cbUint(num(2))))
@@ -610,32 +627,59 @@ func runC27(op string) string {
 	if ei >= 3 && tx.IsValid() != valid {
 		return "build-mismatch"
 	}
-	ls := mockledger.NewLedgerStateBuilder().WithUtxos(utxos).WithPoolRegistrations(pools).
+	retireEpoch := uint64(321)
+	ls := mockledger.NewLedgerStateBuilder().WithUtxos(utxos).
+		WithPoolCurrentState(func(h common.PoolKeyHash) (*common.PoolRegistrationCertificate, *uint64, error) {
+			for i := range pools {
+				if pools[i].Operator == h {
+					if retiring[h] {
+						return &pools[i], &retireEpoch, nil
+					}
+					return &pools[i], nil, nil
+				}
+			}
+			return nil, nil, nil
+		}).
 		WithDRepRegistrations(dreps).WithNetworkId(1).Build()
 	pp := g1Pparams(era, g1PP{MinFeeA: 0, MinFeeB: 0, MaxTxSize: 1 << 20, Major: 9, MaxValueSize: 5000,
 		KeyDeposit: uint(kd), PoolDeposit: uint(pd), DRepDeposit: dd, GovDeposit: 100000000000})
-	vc, bad, dep := "ok", 0, 0
-	for _, rule := range g1Rules(era) {
-		e := safeRule(rule, tx, 10, ls, pp)
-		if e == nil {
-			continue
+	// The rules must behave as pure functions of the transaction and the state: the
+	// same decoded object is validated twice and everything it (and the state's UTxOs)
+	// report about value is compared before / between / after.
+	validate := func() string {
+		vc, bad, dep := "ok", 0, 0
+		for _, rule := range g1Rules(era) {
+			e := safeRule(rule, tx, 10, ls, pp)
+			if e == nil {
+				continue
+			}
+			var e1 shelley.ValueNotConservedUtxoError
+			var e2 shelley.InvalidCertificateDepositError
+			var e3 shelley.BadInputsUtxoError
+			switch {
+			case errors.As(e, &e1):
+				vc = "vnc"
+			case errors.As(e, &e2):
+				vc = "baddep"
+			case errors.As(e, &e3):
+				bad = 1
+			case c27IsIncorrectDeposit(e):
+				dep = 1
+			}
 		}
-		var e1 shelley.ValueNotConservedUtxoError
-		var e2 shelley.InvalidCertificateDepositError
-		var e3 shelley.BadInputsUtxoError
-		switch {
-		case errors.As(e, &e1):
-			vc = "vnc"
-		case errors.As(e, &e2):
-			vc = "baddep"
-		case errors.As(e, &e3):
-			bad = 1
-		case c27IsIncorrectDeposit(e):
-			dep = 1
-		}
+		return fmt.Sprintf("vc=%s bad=%d dep=%d", vc, bad, dep)
+	}
+	snap0 := g1TxSnap(tx, utxos)
+	v1 := validate()
+	snap1 := g1TxSnap(tx, utxos)
+	v2 := validate()
+	snap2 := g1TxSnap(tx, utxos)
+	pure := 1
+	if v1 != v2 || snap0 != snap1 || snap1 != snap2 {
+		pure = 0
 	}
 	_ = conway.UtxoValidationRules
-	return fmt.Sprintf("vc=%s bad=%d dep=%d", vc, bad, dep)
+	return fmt.Sprintf("pure=%d %s", pure, v1)
 }
 
 // c27IsIncorrectDeposit recognises conway.IncorrectCertificateDepositError by type name,
